@@ -336,6 +336,13 @@ func (evm *EVM) Call(ctx context.Context, caller ethvm.ContractRef, addr common.
 						preCallResult.Err = ErrOutOfGas
 					}
 
+					// the frame fails before the callee runs: undo the value transfer and account
+					// creation done on entry and consume the gas like any other failed frame
+					evm.StateDB.RevertToSnapshot(snapshot)
+					if preCallResult.Err != ErrExecutionReverted {
+						preCallResult.Gas = 0
+					}
+
 					return preCallResult.Ret, preCallResult.Gas, preCallResult.Err
 				}
 
